@@ -63,6 +63,8 @@ pub enum Action {
     Drop { p: usize },
     Compare { a: usize, b: usize },
     Sweep,
+    /// replace the party's backing (index into `backings`, or none)
+    SetBacking { p: usize, backing: Option<usize> },
     /// arm a fault that fires at the k-th simulation point inside the next
     /// mutating operation: kind "drop" | "fork" (of `victim`, into `new`)
     Arm { kind: String, k: usize, victim: usize, new: usize },
@@ -241,6 +243,7 @@ fn offset_class(addr: u64, bytes: u64) -> &'static str {
 
 struct Exec<'a, V: SimValue> {
     script: &'a Script,
+    real: BTreeMap<(usize, bool), RC<backing::Memory>>,
     pool: Rc<RefCell<Pool<V>>>,
     mid: Rc<RefCell<MidOp<V>>>,
     scalars: Scalars,
@@ -334,6 +337,7 @@ impl<'a, V: SimValue> Exec<'a, V> {
         }
         Ok(Exec {
             script,
+            real,
             pool,
             mid,
             scalars,
@@ -742,6 +746,44 @@ impl<'a, V: SimValue> Exec<'a, V> {
             }
             Action::Compare { a, b } => self.compare(*a, *b, idx),
             Action::Sweep => self.sweep_all(&format!("sweep at action {}", idx)),
+            Action::SetBacking { p, backing: which } => {
+                let mut party = self.pool.borrow_mut().parties.remove(p)?;
+                self.log.str("set-backing");
+                self.c.inc("op.set_backing");
+                let big = party.shadow.big_endian;
+                let regions: Option<&Vec<Region>> = which.and_then(|i| self.script.config.backings.get(i));
+                let rc = match (which, regions) {
+                    (Some(i), Some(regions)) => Some(
+                        self.real
+                            .entry((*i, big))
+                            .or_insert_with(|| {
+                                let mut b = backing::Memory::new(endian_of(big));
+                                for r in regions {
+                                    b.set_memory(r.address, hex_bytes(&r.data), perms_of(r.perms));
+                                }
+                                RC::new(b)
+                            })
+                            .clone(),
+                    ),
+                    _ => None,
+                };
+                party.shadow.backing.clear();
+                party.shadow.has_backing = rc.is_some();
+                if let Some(regions) = regions {
+                    for r in regions {
+                        party.shadow.add_backing_region(r.address, &hex_bytes(&r.data), r.perms);
+                    }
+                }
+                let r = catch(|| party.mem.set_backing(rc));
+                party.content = self.pool.borrow_mut().fresh();
+                party.wrote_since_fork = true;
+                let v = match r {
+                    Err(pm) => Some(self.viol("panic", &party, panic_site(&pm))),
+                    Ok(()) => None,
+                };
+                self.pool.borrow_mut().parties.insert(*p, party);
+                v
+            }
         }
     }
 
@@ -1152,6 +1194,7 @@ pub fn generate(run_seed: u64, index: u64) -> Script {
         ("compare", 2),
         ("sweep", 1),
         ("arm", 2),
+        ("setbacking", 1),
     ] {
         if rng.chance(2, 3) {
             weights.push((k, w));
@@ -1238,6 +1281,14 @@ pub fn generate(run_seed: u64, index: u64) -> Script {
                 actions.push(Action::Compare { a: p, b: q });
             }
             "sweep" => actions.push(Action::Sweep),
+            "setbacking" => {
+                let which = if backings.is_empty() || rng.chance(1, 3) {
+                    None
+                } else {
+                    Some(rng.usize_below(backings.len()))
+                };
+                actions.push(Action::SetBacking { p, backing: which });
+            }
             "arm" if !fault_free => {
                 if live.len() > 1 {
                     let victim = *rng.pick(&live);
@@ -1337,6 +1388,7 @@ pub fn minimise(script: &Script, class: &str) -> Script {
                 | Action::Load { p, .. }
                 | Action::SetPerm { p, .. }
                 | Action::Perm { p, .. }
+                | Action::SetBacking { p, .. }
                 | Action::Drop { p } => vec![*p],
                 Action::Fork { p, new } => vec![*p, *new],
                 Action::Compare { a, b } => vec![*a, *b],
